@@ -9,6 +9,7 @@ import MagpyVerif.Lemmas.TrimeshSum
 import MagpyVerif.Lemmas.Level2Shape
 import MagpyVerif.Lemmas.TrimeshInside
 import MagpyVerif.Lemmas.OctaCarrier
+import MagpyVerif.Lemmas.Celv
 namespace MagpyVerif.C06
 open MagpyVerif MagpyVerif.Level2
 variable {G V : Type}
@@ -398,5 +399,169 @@ example : tensor drvFlip drvEntries drvSensors = specTensorOp drvFlip drvEntries
   level2_refines_on_driver_carrier drvFlip drvEntries drvSensors drvEntries_rotsOct drvSensors_rotsOct
     drvEntries_leaves drvSensors_WF
 end driverCarrier
+
+end MagpyVerif.C06
+
+/-! ### the complete elliptic integral on a batch: `celv` and the dispatcher `cel` (special_cel.py)
+
+`cel` switches at `len(kcv) < 10` between a list comprehension over the scalar `cel0` and the masked array routine
+`celv` (Model/Celv.lean, tied bit for bit by the `celbatch` rows of the kern stream).  What the code does: in
+`celv` only masked entries are stepped and an entry leaves the loop when ITS OWN test `|g − k| > g·1e-6` fails —
+no entry waits for the slowest one — but the loop body runs BEFORE the first test, so every entry gets at least one
+pass, while `cel0` tests first.  Consequences proved below: inside `celv` a row's value is independent of the batch
+(any carrier, also IEEE double); `cel0` and `celv` agree on every entry on which `cel0` makes at least one pass;
+on the band `0 < |1 − |kc|| ≤ 1e-6` they return different real numbers, so across the threshold of the dispatcher
+a row's value does depend on the batch size (measured on the real code: ≤ 7e-11 relative in `cel`, ≤ 8e-13 relative
+in `getB` of a Cylinder for observers within 5e-7 radii of the axis — below the 1e-7 of the C06 oracle, above the
+few-ulp level). -/
+namespace MagpyVerif.C06
+open MagpyVerif MagpyVerif.Kern
+
+/-- **row-wise**: for every carrier (ℝ, Float, …), every batch (any length, any order, repeated entries) and every
+fuel, `celv` on the batch is, entry by entry, `celv1` — the body-first loop of that entry alone; it returns iff every
+entry's own loop has ended within `fuel` passes -/
+theorem celv_rowwise {α : Type} [Num α] (fuel : Nat) (batch : List (CelArg α)) :
+    celv fuel batch = seqOpt (batch.map (celv1 fuel)) :=
+  celv_eq_seqOpt_celv1 fuel batch
+
+/-- the same with indices: entry `i` of the batch result is the result of the one-entry batch `[batch[i]]` -/
+theorem celv_entry_eq_alone {α : Type} [Num α] (fuel : Nat) (batch : List (CelArg α)) (vs : List α)
+    (h : celv fuel batch = some vs) :
+    ∃ hl : vs.length = batch.length, ∀ (i : Nat) (hi : i < batch.length),
+      celv fuel [batch[i]] = some [vs[i]'(hl ▸ hi)] := by
+  rw [celv_rowwise] at h
+  obtain ⟨hl, hget⟩ := seqOpt_map_getElem _ _ _ h
+  refine ⟨hl, fun i hi => ?_⟩
+  rw [celv_rowwise]
+  simp [seqOpt, hget i hi]
+
+/-- any re-indexing of the batch — a sub-batch, another order, repeated entries, another length — re-indexes the
+result -/
+theorem celv_reindex {α : Type} [Num α] (fuel : Nat) (batch : List (CelArg α)) (vs : List α)
+    (h : celv fuel batch = some vs) :
+    ∃ hl : vs.length = batch.length, ∀ idx : List (Fin batch.length),
+      celv fuel (idx.map fun i => batch[i.1]) = some (idx.map fun i => vs[i.1]'(by have := i.2; omega)) :=
+  Kern.celv_reindex fuel batch vs h
+
+/-- permuting the batch permutes the result: the (entry, value) pairs of the two calls are permutations of each
+other -/
+theorem celv_perm {α : Type} [Num α] (fuel : Nat) {l1 l2 : List (CelArg α)} (hp : l1.Perm l2) {v1 : List α}
+    (h : celv fuel l1 = some v1) : ∃ v2, celv fuel l2 = some v2 ∧ (l1.zip v1).Perm (l2.zip v2) :=
+  celv_perm' fuel hp h
+
+-- non-vacuity (ℝ): a two-entry batch and its swap; both entries terminate (`kc ≠ 0`)
+example : ∃ v1 v2, celv (celvFuel [⟨2, 1, 1, 1⟩, ⟨-3, -2, 1, 1⟩]) [(⟨2, 1, 1, 1⟩ : CelArg ℝ), ⟨-3, -2, 1, 1⟩] = some v1 ∧
+    celv (celvFuel [⟨2, 1, 1, 1⟩, ⟨-3, -2, 1, 1⟩]) [(⟨-3, -2, 1, 1⟩ : CelArg ℝ), ⟨2, 1, 1, 1⟩] = some v2 ∧
+    ([(⟨2, 1, 1, 1⟩ : CelArg ℝ), ⟨-3, -2, 1, 1⟩].zip v1).Perm ([(⟨-3, -2, 1, 1⟩ : CelArg ℝ), ⟨2, 1, 1, 1⟩].zip v2) := by
+  have hs := celv_isSome_celvFuel [(⟨2, 1, 1, 1⟩ : CelArg ℝ), ⟨-3, -2, 1, 1⟩] (by
+    intro x hx
+    simp only [List.mem_cons, List.not_mem_nil, or_false] at hx
+    rcases hx with rfl | rfl <;> norm_num) _ le_rfl
+  obtain ⟨v1, hv1⟩ := Option.isSome_iff_exists.mp hs
+  obtain ⟨v2, hv2, hperm⟩ := celv_perm _ (List.Perm.swap _ _ []) hv1
+  exact ⟨v1, v2, hv1, hv2, hperm⟩
+
+/- FULL (false of the code): for every batch and sufficient fuel, entry `i` of `celv batch` equals `cel0 (batch[i])`;
+   `cel` returns the same numbers on either side of its `n < 10` threshold.
+   False on the band `0 < |1 − |kc|| ≤ 1e-6` (`cel0` returns without a pass, `celv` after one: witness
+   `celv_ne_cel0_in_band`) and at `kc = 0` (`cel0` raises, `celv` never returns: Props/C15 `celv_loops_at_zero`). -/
+/-- any carrier: on a batch each of whose entries makes `cel0` pass through its loop body at least once (`kc ≠ 0`,
+test true at the start; the two spellings `p > 0` / `p <= 0` of the prologue test select the same branch, i.e. `p` is
+not NaN) the list comprehension over `cel0` and `celv` return the same list — `cel0`'s fuel counts tests, `celv`'s
+passes, hence `fuel + 1` against `fuel` -/
+theorem celv_eq_cel0_partial {α : Type} [Num α] (fuel : Nat) (batch : List (CelArg α))
+    (h : ∀ x ∈ batch, Num.lt (Kern.n 0) x.p = !Num.le x.p (Kern.n 0) ∧ Num.eq0 x.kc = false ∧
+      celvCont (celvInit x) = true) :
+    seqOpt (batch.map (cel0Arg (fuel + 1))) = celv fuel batch := by
+  rw [celv_rowwise]
+  congr 1
+  apply List.map_congr_left
+  intro x hx
+  obtain ⟨h1, h2, h3⟩ := h x hx
+  exact cel0Arg_eq_celv1 fuel x h1 h2 h3
+
+/-- exact arithmetic, sufficient fuel: off the band and off `kc = 0` the two paths of the dispatcher agree, so the
+value `cel` returns for an entry is `celv1` of that entry whatever the length of the batch -/
+theorem cel_threshold_consistent_partial (batch : List (CelArg ℝ))
+    (h : ∀ x ∈ batch, x.kc ≠ 0 ∧ 1 / 1000000 < |1 - (|x.kc|)|) (fuel : Nat) (hf : celvFuel batch + 1 ≤ fuel) :
+    seqOpt (batch.map (cel0Arg fuel)) = celv fuel batch ∧
+      celDispatch fuel batch = seqOpt (batch.map (celv1 fuel)) := by
+  obtain ⟨f, rfl⟩ : ∃ f, fuel = f + 1 := ⟨fuel - 1, by omega⟩
+  have key : seqOpt (batch.map (cel0Arg (f + 1))) = celv (f + 1) batch := by
+    rw [celv_rowwise]
+    congr 1
+    apply List.map_congr_left
+    intro x hx
+    obtain ⟨h1, h2⟩ := h x hx
+    rw [cel0Arg_eq_celv1 f x (prologue_tests_agree_real _) (by simpa using h1) ((celvCont_init_iff x).mpr h2)]
+    have hs : (celv1 f x).isSome := celv1_isSome_mono (le_trans (celFuel1_le_celvFuel hx) (by omega))
+      (celv1_isSome_celFuel1 x h1)
+    obtain ⟨v, hv⟩ := Option.isSome_iff_exists.mp hs
+    rw [hv]
+    unfold celv1 at hv ⊢
+    exact (celvDo_fuel_mono f 1 _ v hv).symm
+  refine ⟨key, ?_⟩
+  unfold celDispatch
+  split_ifs
+  · rw [key, celv_rowwise]
+  · rw [celv_rowwise]
+
+example : seqOpt ([(⟨2, 1, 1, 1⟩ : CelArg ℝ)].map (cel0Arg (celvFuel [⟨2, 1, 1, 1⟩] + 1))) =
+    celv (celvFuel [⟨2, 1, 1, 1⟩] + 1) [(⟨2, 1, 1, 1⟩ : CelArg ℝ)] :=
+  (cel_threshold_consistent_partial [⟨2, 1, 1, 1⟩] (by
+    intro x hx
+    simp only [List.mem_cons, List.not_mem_nil, or_false] at hx
+    subst hx
+    norm_num [abs_of_pos]) _ le_rfl).1
+
+/-- the exclusion of the band is necessary: for `0 < k`, `k ≠ 1`, `|1 − k| ≤ 1e-6` (and `p = c = s = 1`, the complete
+integral of the first kind) the scalar routine returns `π / (1 + k)`, the array routine `2π / (1 + √k)²`, for every
+fuel ≥ 1 — two different real numbers; hence one entry evaluated alone (`cel`: scalar path) and the same entry in a
+batch of ten (`cel`: array path) get different values -/
+theorem celv_ne_cel0_in_band (fuel : Nat) (k : ℝ) (hk : 0 < k) (hk1 : k ≠ 1) (hband : |1 - k| ≤ 1 / 1000000) :
+    celDispatch (fuel + 1) [(⟨k, 1, 1, 1⟩ : CelArg ℝ)] = some [Real.pi / (1 + k)] ∧
+    celDispatch (fuel + 1) (List.replicate 10 (⟨k, 1, 1, 1⟩ : CelArg ℝ)) =
+      some (List.replicate 10 (2 * Real.pi / (1 + √k) ^ 2)) ∧
+    Real.pi / (1 + k) ≠ 2 * Real.pi / (1 + √k) ^ 2 := by
+  refine ⟨?_, ?_, band_values_differ k hk hk1⟩
+  · simp [celDispatch, seqOpt, band_cel0_value fuel k hk hband]
+  · have : ¬ ((List.replicate 10 (⟨k, 1, 1, 1⟩ : CelArg ℝ)).length < 10) := by simp
+    unfold celDispatch
+    rw [if_neg this, celv_rowwise, List.map_replicate, band_celv1_value fuel k hk hband, seqOpt_eq_some_iff,
+      List.map_replicate]
+
+example : Real.pi / (1 + (1 + 1 / 2000000 : ℝ)) ≠ 2 * Real.pi / (1 + √(1 + 1 / 2000000 : ℝ)) ^ 2 :=
+  (celv_ne_cel0_in_band 0 (1 + 1 / 2000000) (by norm_num) (by norm_num) (by
+    rw [abs_of_nonpos (by norm_num)]; norm_num)).2.2
+
+end MagpyVerif.C06
+
+/-! ### `el3v` (special_el3.py): the control-flow skeleton of its main loop -/
+namespace MagpyVerif.C06
+open MagpyVerif MagpyVerif.Kern
+
+/- FULL (not shown): entry `i` of `el3v(batch)` equals `el30(batch[i])`, and `el3` returns the same numbers on either side
+   of its `n < 10` threshold.  Shown here only for the loop's control flow with the per-entry statements abstract (`body`:
+   the statements under `mask10`, `test`: `|g − s| > CA·g`, `post`: the statements under `mask11`); that each of those
+   statements acts on an entry's own variables only is read off the source, not proved.  The values are tied by the `el3batch`
+   rows of the kern stream (real `el3` / `el3v` on batches of 1..40 entries against the port of `el30` entry by entry, and
+   `el3v(batch)[i]` bit-identical to `el3v([batch[i]])` on the real code).  Known difference of the two paths: for `x < 0` in
+   the logarithmic branch `el30` raises ValueError where `el3v` returns NaN (known finding el3-nan-to-int). -/
+/-- for every per-entry `body`, `test`, `post` and every state type: the masked array loop `mask10 = ones; while any(mask10):
+body on mask10; mask11 = test (all entries); post on mask11; mask10 = mask11` computes for every entry what the scalar loop
+`while True: body; if test: post else: break` (`el30`) computes for that entry alone — an entry leaves the loop when its own
+test fails and is not touched afterwards; the batch returns iff every entry's own loop has ended within `fuel` passes -/
+theorem el3v_loop_rowwise_partial {σ : Type} (L : MaskedLoop σ) (fuel : Nat) (batch : List σ) :
+    L.run fuel (batch.map fun s => (s, true)) = seqOpt (batch.map (L.run1 fuel)) :=
+  L.run_rowwise fuel batch
+
+/-- the loop of `celv` (Model/Celv.lean, what the driver runs) is the instance `post = id` of the same skeleton -/
+theorem celv_loop_is_skeleton_instance {α : Type} [Num α] (fuel : Nat) (st : List (CelvRow α × Bool)) :
+    celvLoop fuel st =
+      ((⟨celvStep, celvCont, id⟩ : MaskedLoop (CelvRow α)).run fuel st).map (fun l => l.map celvOut) :=
+  celvLoop_eq_maskedLoop fuel st
+
+-- non-vacuity: entries needing 3 passes, 1 pass (the forced first pass) and 2 passes in one batch
+example : (⟨(· + 1), (· < 3), id⟩ : MaskedLoop Nat).run 5 ([0, 7, 1].map fun s => (s, true)) = some [3, 8, 3] := by decide
 
 end MagpyVerif.C06
